@@ -607,10 +607,77 @@ def _drop_dead_collaborators(ct, classes, log):
         log.append(f"{c.module.relpath}:{c.node.lineno} class {c.name} (dissolved into its only user: dropped)")
 
 
+def synthesize_dataclass_init(ct, log) -> None:
+    """A class turned into a dataclass with InitVar / field(init=False) fields and its constructor body moved into __post_init__ has the
+    constructor `__init__(self, <init fields and InitVars>)`: store the init fields, then run __post_init__ with the InitVars.  That
+    constructor is written out (the generated one is invisible to a reader of the source), so rules anchored on `__init__` find it."""
+    for ci in list(ct.by_qual.values()):
+        decos = [ast.unparse(d.func if isinstance(d, ast.Call) else d) for d in ci.node.decorator_list]
+        if not any(d.split(".")[-1] == "dataclass" for d in decos) or "__init__" in ci.methods or "__post_init__" not in ci.methods:
+            continue
+        if any(b.is_dataclass() for b in ct.mro(ci)[1:]):
+            continue
+        params, initvars, stores = [], [], []
+        special = False
+        okc = True
+        for item in ci.node.body:
+            if not (isinstance(item, ast.AnnAssign) and isinstance(item.target, ast.Name)):
+                continue
+            ann = ast.unparse(item.annotation)
+            name = item.target.id
+            if ann.startswith(("ClassVar", "typing.ClassVar")):
+                continue
+            default = item.value
+            if isinstance(default, ast.Call) and ast.unparse(default.func).split(".")[-1] == "field":
+                kws = {k.arg: k.value for k in default.keywords}
+                if isinstance(kws.get("init"), ast.Constant) and kws["init"].value is False:
+                    special = True
+                    continue
+                if "default_factory" in kws:
+                    okc = False
+                    break
+                default = kws.get("default")
+            if ann.startswith(("InitVar", "dataclasses.InitVar")):
+                special = True
+                initvars.append(name)
+            else:
+                stores.append(name)
+            params.append((name, default))
+        post = ci.methods["__post_init__"]
+        if not okc or not special or [a.arg for a in post.args.args][1:] != initvars or post.args.vararg or post.args.kwarg or post.args.kwonlyargs:
+            continue
+        seen_default = False
+        for _n, d in params:
+            if d is not None:
+                seen_default = True
+            elif seen_default:
+                okc = False
+        if not okc:
+            continue
+        args = ast.arguments(posonlyargs=[], args=[ast.arg(arg="self")] + [ast.arg(arg=n) for n, _d in params], vararg=None, kwonlyargs=[],
+                             kw_defaults=[], kwarg=None, defaults=[copy.deepcopy(d) for _n, d in params if d is not None])
+        body = [ast.Assign(targets=[ast.Attribute(value=ast.Name(id="self", ctx=ast.Load()), attr=n, ctx=ast.Store())], value=ast.Name(id=n, ctx=ast.Load()))
+                for n in stores]
+        pbody = copy.deepcopy(post.body)
+        if pbody and isinstance(pbody[0], ast.Expr) and isinstance(pbody[0].value, ast.Constant) and isinstance(pbody[0].value.value, str):
+            pbody = pbody[1:]
+        init = ast.FunctionDef(name="__init__", args=args, body=body + pbody or [ast.Pass()], decorator_list=[], returns=None, type_comment=None)
+        if hasattr(post, "type_params"):
+            init.type_params = []
+        ast.copy_location(init, post)
+        for st in body:
+            ast.copy_location(st, post)
+        ast.fix_missing_locations(init)
+        ci.node.body.append(init)
+        ci.methods["__init__"] = init
+        log.append(f"{ci.module.relpath}:{post.lineno} {ci.name}.__init__ written out from the dataclass fields and __post_init__")
+
+
 def flatten_objects(ct) -> list[str]:
     anchors = anchor_names()
     log: list[str] = []
     done: list = []
+    synthesize_dataclass_init(ct, log)
     _flatten_attribute_objects(ct, anchors, log, done)
     _flatten_local_objects(ct, anchors, log, done)
     _collapse_forwarding_properties(ct, anchors, log)
